@@ -27,8 +27,9 @@ VARIABLES files,    \* [Paths -> Contents \cup {Absent}]
           target,   \* targeted? (must not matter)
           dep,      \* content id of D's file, or Absent when M has no dependency
           depdep,   \* content id of E's file (D imports E), or Absent
+          depwkt,   \* D's file is a vendored well-known type (google/protobuf/timestamp.proto) instead of dep/d.proto
           steps, lastOp
-vars == <<files, name, target, dep, depdep, steps, lastOp>>
+vars == <<files, name, target, dep, depdep, depwkt, steps, lastOp>>
 
 Present(fs) == {p \in Paths : fs[p] # Absent}
 DocFile(fs) == IF \E i \in 1..3 : DocOrder[i] \in Present(fs)
@@ -60,8 +61,9 @@ B4(fs) == FilesDigest(fs)
 \* the dependency modules: one file each with the given content; E has no dependency
 EFiles(c) == [p \in {"e/e.proto"} |-> c]
 DigestE(c) == H([op |-> "sortjoin", first |-> CasStr(H(Cat(<<Cat(<<CasStr(H([op |-> "depcontent", m |-> "E", id |-> c])), Lit("  "), Lit("e/e.proto"), Lit("\n")>>)>>))), rest |-> {}])
+DPath == IF depwkt THEN "google/protobuf/timestamp.proto" ELSE "dep/d.proto"
 DigestD(c, e) == H([op |-> "sortjoin",
-                    first |-> CasStr(H(Cat(<<Cat(<<CasStr(H([op |-> "depcontent", m |-> "D", id |-> c, imports |-> (e # Absent)])), Lit("  "), Lit("dep/d.proto"), Lit("\n")>>)>>))),
+                    first |-> CasStr(H(Cat(<<Cat(<<CasStr(H([op |-> "depcontent", m |-> (IF depwkt THEN "W" ELSE "D"), id |-> c, imports |-> (e # Absent)])), Lit("  "), Lit(DPath), Lit("\n")>>)>>))),
                     rest |-> IF e = Absent THEN {} ELSE {B5Str(DigestE(e))}])
 DepDigests == IF dep = Absent THEN {} ELSE ({DigestD(dep, depdep)} \cup (IF depdep = Absent THEN {} ELSE {DigestE(depdep)}))
 Digest == B5(files, DepDigests)
@@ -77,7 +79,7 @@ BaseSets ==
               {"a.proto", "d x/c.proto", "d/u-umlaut.proto", "LICENSE"} } }
 
 Init == /\ files \in BaseSets /\ name = "n1" /\ target = TRUE
-        /\ dep \in {Absent, "c1"} /\ depdep = Absent
+        /\ dep \in {Absent, "c1"} /\ depdep = Absent /\ depwkt \in BOOLEAN /\ (dep = Absent => ~depwkt)
         /\ steps = 0 /\ lastOp = [op |-> "init"]
 
 Can == steps < MaxSteps
@@ -86,23 +88,24 @@ Can == steps < MaxSteps
 SetFile(p, c) == /\ Can /\ files[p] # c /\ (p = "a.proto" => c \in {"c1", "c2"})
                  /\ files' = [files EXCEPT ![p] = c]
                  /\ lastOp' = [op |-> "setfile", path |-> p, content |-> c] /\ steps' = steps + 1
-                 /\ UNCHANGED <<name, target, dep, depdep>>
+                 /\ UNCHANGED <<name, target, dep, depdep, depwkt>>
 Rename == /\ Can /\ name' = (IF name = "n1" THEN "n2" ELSE "n1") /\ lastOp' = [op |-> "rename"] /\ steps' = steps + 1
-          /\ UNCHANGED <<files, target, dep, depdep>>
+          /\ UNCHANGED <<files, target, dep, depdep, depwkt>>
 Retarget == /\ Can /\ dep # Absent /\ target' = ~target /\ lastOp' = [op |-> "retarget"] /\ steps' = steps + 1
-            /\ UNCHANGED <<files, name, dep, depdep>>
+            /\ UNCHANGED <<files, name, dep, depdep, depwkt>>
 SetDep(c) == /\ Can /\ dep # c /\ dep' = c /\ depdep' = (IF c = Absent THEN Absent ELSE depdep)
              /\ lastOp' = [op |-> "setdep", content |-> c] /\ steps' = steps + 1
+             /\ depwkt' = (IF c = Absent THEN FALSE ELSE depwkt)
              /\ UNCHANGED <<files, name, target>>
-SetDepDep(c) == /\ Can /\ dep # Absent /\ depdep # c /\ depdep' = c
+SetDepDep(c) == /\ Can /\ dep # Absent /\ ~depwkt /\ depdep # c /\ depdep' = c
                 /\ lastOp' = [op |-> "setdepdep", content |-> c] /\ steps' = steps + 1
-                /\ UNCHANGED <<files, name, target, dep>>
+                /\ UNCHANGED <<files, name, target, dep, depwkt>>
 Next == \/ \E p \in Paths : \E c \in Contents \cup {Absent} : SetFile(p, c)
         \/ Rename \/ Retarget
         \/ \E c \in {"c1", "c2", Absent} : SetDep(c)
         \/ \E c \in {"c1", "c2", Absent} : SetDepDep(c)
 Spec == Init /\ [][Next]_vars
-View == <<files, name, target, dep, depdep, steps>>
+View == <<files, name, target, dep, depdep, depwkt, steps>>
 
 \* ---- laws ----
 ModuleContent(fs) == {<<p, fs[p]>> : p \in ModuleFiles(fs)}
@@ -113,7 +116,7 @@ Frame == [][ (lastOp'.op \in {"rename", "retarget"}) => Digest' = Digest ]_vars
 NonModuleIrrelevant == [][ (lastOp'.op = "setfile" /\ lastOp'.path \notin ModuleFiles(files) /\ lastOp'.path \notin ModuleFiles(files')) => Digest' = Digest ]_vars
 
 EmitState == Emit => PrintT(<<"STATE", ToJson([files |-> {[p |-> p, c |-> files[p]] : p \in Present(files)}, name |-> name, target |-> target,
-                                dep |-> dep, depdep |-> depdep, modulefiles |-> ModuleFiles(files), b5 |-> Digest, b4 |-> B4(files),
+                                dep |-> dep, depdep |-> depdep, depwkt |-> depwkt, modulefiles |-> ModuleFiles(files), b5 |-> Digest, b4 |-> B4(files),
                                 manifest |-> ManifestText(files), roundtrips |-> RoundTrips(files),
                                 depDigest |-> IF dep = Absent THEN Lit("") ELSE B5Str(DigestD(dep, depdep))])>>)
 =============================================================================
